@@ -1202,3 +1202,51 @@ def oracle_c09(op, kv, res, trace, flags):
 
 def nontrivial_c09(op, kv):
     return len(kv.get("h", "")) >= 16
+
+# --------------------------------------------------------------------------
+# C15: concurrent use
+# --------------------------------------------------------------------------
+def gen_c15(tier, rng):
+    """one case file for a process: first line declares the shared needle"""
+    quick = tier == "quick"
+    x = b"xy" + b"z" * 40
+    lines = [f"sharedneedle x={hexs(x)}"]
+    step = 400 if quick else 60
+    for g in (gen_c01, gen_c02, gen_c07):
+        src = [c for c in g("quick", rng) if " be=top " in c and "cpu=" not in c]
+        lines += src[:: max(1, len(src) // (60 if quick else 300))]
+    it = [c for c in gen_c06("quick", rng) if " be=top " in c and "cpu=" not in c]
+    lines += it[:: max(1, len(it) // (40 if quick else 200))]
+    mm = [c for c in gen_c03("quick", rng) if "cpu=" not in c]
+    lines += mm[:: max(1, len(mm) // (60 if quick else 300))]
+    mr = [c for c in gen_c04("quick", rng)]
+    lines += mr[:: max(1, len(mr) // (40 if quick else 200))]
+    junk = (x[:2] + b"q") * 70
+    hs = [junk + x, x + b"--" + x, b"q" * 200, junk, b"", x * 3, b"q" * 70 + x + b"q" * 70 + x]
+    for j in range(40 if quick else 200):
+        h = hs[j % len(hs)]
+        lines.append(f"sfind h={hexs(h)}")
+        lines.append(f"srfind h={hexs(h)}")
+        if j % 3 == 0:
+            lines.append(f"siter h={hexs(h)} k={len(greedy_py(h, x)) + 2}")
+    return lines
+
+def oracle_c15(op, kv, res, trace, flags, shared=b""):
+    if op in ("find", "rfind", "count"):
+        return oracle_memchr(op, kv, res, trace, flags)
+    if op == "iter":
+        return oracle_iter(op, kv, res, trace, flags)
+    if op == "mm":
+        return oracle_mm(op, kv, res, trace, flags)
+    h = bytes.fromhex(kv.get("h", ""))
+    if op == "sfind":
+        i = h.find(shared); want = "None" if i < 0 else f"Some({i})"
+        return None if res == want else f"shared Finder::find returned {res} under concurrency, in isolation {want}"
+    if op == "srfind":
+        i = h.rfind(shared); want = "None" if i < 0 else f"Some({i})"
+        return None if res == want else f"shared FinderRev::rfind returned {res} under concurrency, in isolation {want}"
+    if op == "siter":
+        seq = greedy_py(h, shared); k = int(kv["k"])
+        want = ";".join(([f"Some({i})" for i in seq] + ["None"] * k)[:k])
+        return None if res == want else f"cloned find_iter yielded {res} under concurrency, in isolation {want}"
+    return None
